@@ -115,6 +115,11 @@ def main():
         for ln in open(os.path.join(SRC, '4DFR.pdb')):
             if ln.startswith('HETATM') and ln[17:20] == 'MTX' and ln[21] == 'A':
                 fh.write(ln[:80].rstrip() + '\n')
+    # the second methotrexate copy of 4DFR (chain B): its fused rings are less planar than those of copy A
+    with open(os.path.join(OUT, 'lig_MTX_B.pdb'), 'w') as fh:
+        for ln in open(os.path.join(SRC, '4DFR.pdb')):
+            if ln.startswith('HETATM') and ln[17:20] == 'MTX' and ln[21] == 'B':
+                fh.write(ln[:80].rstrip() + '\n')
     print(sorted(os.listdir(OUT)))
 
 
